@@ -137,6 +137,11 @@ func evalName(node *jparse.NameNode, data reflect.Value, env *environment) (refl
 	switch {
 	case jtypes.IsStruct(data):
 		v = data.FieldByName(node.Value)
+		// An unexported field is not part of the data: its value
+		// cannot be used without panicking in package reflect.
+		if v.IsValid() && !v.CanInterface() {
+			v = undefined
+		}
 	case jtypes.IsMap(data):
 		v = data.MapIndex(reflect.ValueOf(node.Value))
 	case jtypes.IsArray(data):
